@@ -217,13 +217,18 @@ theorem processTimeoutTrace_ok (env : Env) (m : Machine) (s : Step) (h : Height)
   unfold Machine.processTimeoutTrace Machine.processTimeout
   have h1 := onTimeoutTrace_ok env m s h r hi
   have h2 := onTimeout_chain (A := AnyMsg) env m s h r hs hi
-  constructor
-  · simp only [Machine.processLoop, traceActions_append]
-    rw [loopTrace_actions, h1.1]
-  · intro e he
-    rcases List.mem_append.mp he with he | he
-    · exact h1.2 e he
-    · exact loopTrace_justified env _ _ _ h2.2.2 h2.2.1 e he
+  by_cases hemp : (m.onTimeout env s h r).2.isEmpty = true
+  · simp only [hemp, if_true]
+    exact ⟨by simp [traceActions], fun e he => by cases he⟩
+  · have hemp' : (m.onTimeout env s h r).2.isEmpty = false := by simpa using hemp
+    simp only [hemp', Bool.false_eq_true, if_false]
+    constructor
+    · simp only [Machine.processLoop, traceActions_append]
+      rw [loopTrace_actions, h1.1]
+    · intro e he
+      rcases List.mem_append.mp he with he | he
+      · exact h1.2 e he
+      · exact loopTrace_justified env _ _ _ h2.2.2 h2.2.1 e he
 
 theorem processSyncVotesTrace_ok (env : Env) : ∀ (vs : List Vote) (m : Machine) (acc : List Action),
     MInv env m →
